@@ -123,7 +123,7 @@ typedef struct of_linear_binary_code_cb
 	
 	void		** repair_symbols_values;
 	void		** tmp_tab_symbols;
-	UINT16		nb_tmp_symbols;
+	UINT32		nb_tmp_symbols;
 #endif /* } OF_USE_DECODER */
 
 	void 		**encoding_symbols_tab;
